@@ -152,6 +152,12 @@ def run(shard, rec, rng):
                 f.write(content)
         with open(os.path.join(top, "secret.txt"), "w") as f:
             f.write("SENTINEL-SECRET")
+        # siblings whose names merely start with the root's name (prefix checks without a separator fall for these)
+        os.makedirs(os.path.join(top, "root-private"))
+        with open(os.path.join(top, "root-private", "secret2.txt"), "w") as f:
+            f.write("SENTINEL-SECRET sibling directory")
+        with open(os.path.join(top, "root.bak"), "w") as f:
+            f.write("SENTINEL-SECRET sibling file")
         realroot = os.path.realpath(root)
         mimetypes.init()
         allow = {os.path.realpath(p) for p in mimetypes.knownfiles}
@@ -174,6 +180,8 @@ def run(shard, rec, rng):
             d = unquote(c)
             if d != c:
                 reqs.append(d)
+        reqs += ["../root-private/secret2.txt", "x/../../root-private/secret2.txt", "../root.bak", "sub/../../root.bak", "/" + top + "/root.bak", "/" + top + "/root-private/secret2.txt",
+                 "..%2froot-private%2fsecret2.txt", "../root-private", "../root.bak/", "a.txt/../../root.bak"]
         for c in reqs:
             n += 1
             if n % of != idx:
@@ -193,6 +201,16 @@ def run(shard, rec, rng):
                     rec.observe("served_files")
                 except HTTPException:
                     rec.observe("requests_404")
+                try:
+                    # a relative trusted directory resolved against a root path (how Flask calls it)
+                    resp = utils.send_from_directory("root", c, create_environ(), _root_path=top)
+                    bodies.append(b"".join(resp.response) if resp.response else b"")
+                    resp.close()
+                    rec.observe("served_files")
+                except HTTPException:
+                    rec.observe("requests_404")
+                except TypeError:
+                    rec.observe("root_path_keyword_gone")
                 except Exception as e:
                     rec.observe(f"send_from_directory_raised:{type(e).__name__}")
                 for prefix in ("/static/", "/pkg/"):
